@@ -4,8 +4,11 @@
   Termination is Lean's own acceptance of the model's definitions (structural recursion, or an
   explicit fuel whose exhaustion is a distinct outcome). What is proved here: decoding an in-memory
   buffer never returns an error; the integer facts behind the `unsafe` blocks and the node-count
-  bound; where the finaliser and the encoder can fail at all (only inside the curve / slider-event
-  code: `CErr.panic` or `CErr.fuel`).
+  bound; the curve computation, the finaliser and `From<…State>` never reach `CErr.panic` (index safety,
+  Lemmas/CurveTotal.lean) — `decode_total_modulo_fuel`; the encoder panics only through the `f64::clamp`
+  assertion of `SliderEventsIter::new` (Lemmas/EncodeTotal.lean) — `encode_no_panic_of_nonneg_dist`;
+  the structural fuel bound of the Bezier flattening. Not proved: fuel sufficiency in IEEE, and
+  non-negativity of decoded slider distances (`decoded_dist_nonneg_statement`).
 -/
 import RosuModel.Model.Encode
 import RosuModel.Props.C09
@@ -143,8 +146,10 @@ theorem newBorrowed_no_panic (fuel : Nat) (mode : GameMode) (points : List (Path
     Curve.newBorrowed fuel mode points e bufs ≠ .error .panic :=
   (newBorrowed_safe fuel mode points e bufs hw).no_panic
 
+omit [Scalar F] [Scalar P] [Cvt P F] [Trig F] [Trig P] in
 /-- `CurveBuffers::default()` is well-formed (both spellings used by the model). -/
 theorem default_wf : (({} : CurveBuffers P F)).bezier.WF := ⟨rfl, rfl, rfl⟩
+omit [Scalar F] [Scalar P] [Cvt P F] [Trig F] [Trig P] in
 theorem emptyBuffers_wf : (emptyBuffers : CurveBuffers P F).bezier.WF := ⟨rfl, rfl, rfl⟩
 
 /-- buffers reachable from `CurveBuffers::default()` by any history of successful constructor calls. -/
@@ -166,6 +171,7 @@ theorem new_no_panic_of_reachable (fuel : Nat) (mode : GameMode) (points : List 
     Curve.new fuel mode points e bufs ≠ .error .panic ∧ Curve.newBorrowed fuel mode points e bufs ≠ .error .panic :=
   ⟨new_no_panic fuel mode points e bufs h.wf, newBorrowed_no_panic fuel mode points e bufs h.wf⟩
 
+omit [Trig F] [Trig P] in
 /-- `calculate_length` leaves at least as many lengths as path points (all five outcomes of
 C16 `calculateLength_some`). -/
 theorem calculateLength_path_le (path : List (Pos P)) (e : Option F) (opt : F) (p' : List (Pos P)) (ls : List F)
@@ -477,5 +483,51 @@ theorem encode_decoded_no_panic_of_dist_nonneg (h : decoded_dist_nonneg_statemen
   fun bs st m h1 h2 => encode_no_panic_of_nonneg_dist m (h bs st m h1 h2)
 
 end Encoder
+
+/-! ### fuel (structural part) and non-vacuity -/
+
+section Examples
+open Rosu.Toy Rosu.Curve
+
+omit [Scalar F] [Cvt P F] [Trig F] [Trig P] in
+/-- **`bezier_fuel_suffices`** restated here: if every piece of the control polygon is flat enough after at most `k`
+halvings (`FlatAfter`, an arithmetic hypothesis), `approximate_bezier` with fuel `≥ 2^(k+1) − 1` returns a value on all
+well-formed buffers. (`C17.thetaLoop_fuel`: one round of the angle loop suffices when `theta_end + 2π ≥ theta_start`.) -/
+theorem bezier_fuel_suffices (fuel k : Nat) (pts : List (Pos P)) (h1 : 1 ≤ pts.length) (hk : FlatAfter k pts)
+    (hf : 2 ^ (k + 1) - 1 ≤ fuel) (b : BezierBuffers P) (hb : b.WF) :
+    ∃ r, approximateBezier fuel pts b = .ok r :=
+  Rosu.bezier_fuel_suffices fuel k pts h1 hk hf b hb
+
+/-- what is not proved: that the IEEE (or any lawful) arithmetic makes every decoded control polygon flat after a
+bounded number of halvings, so that the model fuel 2·10⁶ is never exhausted on decoded maps. -/
+def bezier_flat_after_statement (P : Type) [Scalar P] (bound : Nat) : Prop :=
+  ∀ pts : List (Pos P), 2 ≤ pts.length → ∃ k, 2 ^ (k + 1) - 1 ≤ bound ∧ FlatAfter k pts
+
+/-- the hypothesis of `bezier_fuel_suffices` is satisfiable (toy arithmetic, an evenly spaced straight polygon). -/
+example : FlatAfter 0 [pt 0 0, pt 2 2, pt 4 4] := by rfl
+example : SubdivTree [pt 0 0, pt 2 2, pt 4 4] 1 := SubdivTree.leaf (by rfl)
+
+/-- the three outcomes are all live in the model. A value on default buffers: -/
+example : (match calculatePath 10 .osu [cp 0 0 (some PathType.bezier), cp 2 2, cp 4 4]
+    ({} : CurveBuffers Int Int) with | .ok r => r.1.path | .error _ => []) = [pt 0 0, pt 0 0, pt 4 4] := by rfl
+
+/-- fuel exhaustion: -/
+example : calculatePath 0 .osu [cp 0 0 (some PathType.bezier), cp 2 2, cp 4 4] ({} : CurveBuffers Int Int) =
+    .error .fuel := by rfl
+
+/-- and the well-formedness hypothesis of `calculatePath_no_panic` cannot be dropped: on scratch vectors of unequal
+lengths (which no computation produces) the model does reach the index panic. -/
+example : calculatePath 10 .osu [cp 0 0 (some PathType.bezier), cp 2 2, cp 4 4]
+    ({ bezier := { left := [pt 0 0, pt 0 0, pt 0 0] } } : CurveBuffers Int Int) = .error .panic := by rfl
+
+/-- the hypothesis of `encode_no_panic_of_nonneg_dist` holds for a non-negative distance … -/
+example : Scalar.le (0 : Int) (Scalar.min (100000 : Int) 25) = true := by decide
+example : DistOk ([] : List (HitObject Int Int)) := fun _ h => by cases h
+
+/-- … and fails for a negative one, where the slider-event constructor panics (`f64::clamp` assertion). -/
+example : Encode.sliderEventList (F := Int) 0 1 1 (-5) 1 1 [] = .error .panic :=
+  sliderEventList_panics _ _ _ _ _ _ _ (by decide)
+
+end Examples
 
 end Rosu.C01
